@@ -88,6 +88,7 @@ type Exec struct {
 	shared        *sharedState
 	onceDepth     int
 	lastRaces     []string
+	pools         map[Ptr][]Value
 }
 
 type Violation struct {
@@ -708,6 +709,7 @@ func (ex *Exec) resetPath(item WorkItem) {
 	ex.shared = nil
 	ex.onceDepth = 0
 	ex.lastRaces = nil
+	ex.pools = nil
 }
 
 // runPath executes the harness once along the given decision prefix.
